@@ -184,6 +184,7 @@ def run_seeds(build, scenario, start, count, nproc=NPROC, env_extra=None, stall_
     results = []
     t0 = time.time()
     problem = None
+    crashes = CRASHES
     active = list(workers)
     while active:
         time.sleep(0.05)
@@ -208,11 +209,18 @@ def run_seeds(build, scenario, start, count, nproc=NPROC, env_extra=None, stall_
                 if rc not in (0, 3):
                     tail = ''
                     try:
-                        tail = open(w.cap, 'rb').read()[-3000:].decode(errors='replace')
+                        tail = open(w.cap, 'rb').read()[-6000:].decode(errors='replace')
                     except Exception:
                         pass
-                    problem = f'worker for {scenario} seeds from {w.next_seed} exited with status {rc}:\n{tail}'
-                    w.remaining = 0
+                    # The process died inside seed w.next_seed: remember it (it is re-run alone
+                    # afterwards to tell a library crash from harness trouble) and go on.
+                    crashes.append({'scenario': scenario, 'seed': w.next_seed, 'rc': rc, 'tail': tail, 'env': dict(env_extra)})
+                    w.next_seed += 1
+                    w.remaining -= 1
+                    w.resume = None
+                    if w.remaining > 0 and len(crashes) < 20:
+                        w.start({'SIM_SEEDS': f'{w.next_seed}:{w.remaining}'})
+                        continue
                 active.remove(w)
                 continue
             if time.time() - w.last_progress > stall_timeout:
@@ -223,6 +231,40 @@ def run_seeds(build, scenario, start, count, nproc=NPROC, env_extra=None, stall_
                 w.proc.kill()
                 active.remove(w)
     return results, problem
+
+
+CRASHES = []  # worker processes that died inside a seed (filled by run_seeds)
+
+
+def library_crash(tail):
+    return ('github.com/danthegoodman1/bloomsearch.' in tail or 'out of memory' in tail or 'cannot allocate memory' in tail) and \
+           ('panic' in tail or 'fatal error' in tail)
+
+
+def confirm_crash(build, prop, c):
+    """Re-runs the seed alone in a fresh process; a repeatable library crash becomes a replay file."""
+    env = dict(c['env'])
+    env.update({'SIM_SCENARIO': c['scenario'], 'SIM_SEEDS': f'{c["seed"]}:1'})
+    w = Worker(build, 'crash-%d' % c['seed'], env)
+    w.start({})
+    try:
+        rc = w.proc.wait(timeout=300)
+    except subprocess.TimeoutExpired:
+        w.proc.kill()
+        return None
+    if rc in (0, 3):
+        return None
+    try:
+        tail = open(w.cap, 'rb').read()[-6000:].decode(errors='replace')
+    except Exception:
+        tail = ''
+    if not library_crash(tail):
+        return None
+    os.makedirs(os.path.join(VERIF, 'replays'), exist_ok=True)
+    path = os.path.join(VERIF, 'replays', f'{prop}-{c["seed"]}-process-killed.json')
+    json.dump({'property': prop, 'kind': 'process-killed', 'message': 'the library killed the process it is embedded in: ' + tail[-1500:], 'seed': c['seed'],
+               'scenario': c['scenario'], 'tapes': None, 'crash': True, 'minimised': False, 'repo_tree': repo_tree_hash()}, open(path, 'w'), indent=1)
+    return path
 
 
 def single(build, env_extra, timeout=600):
@@ -337,12 +379,15 @@ def _check(prop, tier, spec, base_seed, build, t0, runs_override):
     plan = spec[tier] if tier in spec else spec['quick']
     wall_cap = spec.get('wall_cap', {}).get(tier, 600 if tier == 'quick' else 3600)
     per_scenario = {}
-    for si, (scenario, count) in enumerate(plan):
+    for si, entry in enumerate(plan):
+        scenario, count = entry[0], entry[1]
         if runs_override:
-            count = runs_override
+            count = runs_override if len(entry) < 3 else max(1, runs_override // 40)
         start = base_seed * 100_000_000 + si * 10_000_000
         env_extra = {'SIM_PROP': prop}
         env_extra.update(spec.get('env', {}))
+        if len(entry) > 2:
+            env_extra.update(entry[2])
         remaining_cap = max(30, wall_cap - (time.time() - t0))
         results, problem = run_seeds(build, scenario, start, count, env_extra=env_extra, wall_cap=remaining_cap)
         if problem:
@@ -413,6 +458,15 @@ def _check(prop, tier, spec, base_seed, build, t0, runs_override):
         reported.append((kind, path, v, len(lst)))
         status = 1
 
+    crashes, CRASHES[:] = list(CRASHES), []
+    for c in crashes[:3]:
+        path = confirm_crash(build, prop, c)
+        if path:
+            print(f'{prop}/process-killed: worker died (status {c["rc"]}) inside {c["scenario"]} seed {c["seed"]}, repeatably, with the library on the stack')
+            reported.append(('process-killed', path, {'msg': c['tail'][-300:], 'kind': 'process-killed'}, 1))
+            status = 1
+        else:
+            problems.append(f'worker for {c["scenario"]} died with status {c["rc"]} inside seed {c["seed"]} (not attributable to the library, or not repeatable):\n{c["tail"][-1500:]}')
     for k, v, n in known_hits:
         print(f'KNOWN-FINDING: property={prop} {k.get("id", "")} {k["description"]} (kind={v["kind"]}, {n} runs this time)')
     for kind, path, v, n in reported:
@@ -427,7 +481,7 @@ def _check(prop, tier, spec, base_seed, build, t0, runs_override):
         'samples': samples or [{'note': 'no sample recorded'}],
         'distinct_schedules': len(digests),
         'scenarios': {s: len([1 for r in rs if 'seed' in r]) for s, rs in per_scenario.items()},
-        'seeds': {s: [base_seed * 100_000_000 + i * 10_000_000, len([1 for r in per_scenario[s] if 'seed' in r])] for i, (s, _) in enumerate(plan)},
+        'seeds': {s: [base_seed * 100_000_000 + i * 10_000_000, len([1 for r in per_scenario[s] if 'seed' in r])] for i, (s, *_) in enumerate(plan)},
         'runs_per_hour': int(rate),
         'steps': steps,
         'simulated_seconds': round(sim_ms / 1000.0, 1),
@@ -477,6 +531,10 @@ def replay(prop, path):
     try:
         rc, out = single(build, {'SIM_SCENARIO': rf['scenario'], 'SIM_REPLAY': os.path.abspath(path)})
         rep = [r for r in out if 'seed' in r]
+        if not rep and rf.get('crash') and rc not in (0, 3):
+            print(f'{rf["property"]}/process-killed: the replayed run killed the worker process again (status {rc})')
+            print(f'VIOLATION property={rf["property"]} replay={path}')
+            return 1
         if not rep:
             trouble(f'replay produced no result (rc={rc}): {out}')
         r = rep[0]
